@@ -145,3 +145,11 @@ package fingerprint
 //@   site os.Stat#1 ghost statFailed := result.1 != nil
 //@   loop 1 invariant !statFailed
 //@   ensures statFailed ==> result.1 != nil                                                          [C04,C05]
+
+// ---- C05: the list of matched files is in ONE fixed order (plain string order), whatever order the map gave:
+// the checksum hashes names and contents in list order
+//@ func collectKeys
+//@   site sort.Strings#1 requires arg0 == keys                                                      [C05]
+//@   nosite sort.Slice                                                                               [C05]
+//@   nosite sort.SliceStable                                                                         [C05]
+//@   nosite slices.SortFunc                                                                          [C05]
